@@ -411,13 +411,31 @@ def _has_use(block: list[dict]) -> bool:
     return False
 
 
-def _tlc_many(jobs: list[tuple[str, str, str]]) -> dict[str, core.TLCResult]:
-    """Run independent generator / model-checking configurations side by side (each is short and far from using 16 cores)."""
-    from concurrent.futures import ThreadPoolExecutor
+class _TLCJobs:
+    """Independent generator / model-checking configurations run side by side (each is short and far from using 16 cores,
+    except the exhaustive run of the thorough tier, which goes on while the slices are replayed); results are collected
+    when they are first needed."""
 
-    with ThreadPoolExecutor(max(1, len(jobs))) as ex:
-        futs = {name: ex.submit(core.run_tlc, module, cfg, timeout=3400) for name, module, cfg in jobs}
-        return {name: f.result() for name, f in futs.items()}
+    def __init__(self, check: core.Check, jobs: list[tuple[str, str, str]], parallel: int) -> None:
+        from concurrent.futures import ThreadPoolExecutor
+
+        self.check = check
+        self.cfg = {name: cfg for name, _m, cfg in jobs}
+        self.ex = ThreadPoolExecutor(max(1, parallel))
+        self.futs = {name: self.ex.submit(core.run_tlc, module, cfg, timeout=3400) for name, module, cfg in jobs}
+        self.done: dict[str, core.TLCResult] = {}
+
+    def get(self, name: str) -> core.TLCResult:
+        if name not in self.done:
+            res = core.require_ok(self.futs[name].result(), f"ScopeGen {self.cfg[name]}")
+            self.check.add_tlc(name, res)
+            self.done[name] = res
+        return self.done[name]
+
+    def finish(self) -> None:
+        for name in self.futs:
+            self.get(name)
+        self.ex.shutdown()
 
 
 def _with_forms(progs: list[dict]) -> list[dict]:
@@ -529,17 +547,17 @@ def run(check: core.Check) -> None:
             ("inner4", "ScopeGenEmit", "ScopeGen.inner.cfg"),
             ("match5", "ScopeGenEmit", "ScopeGen.match.cfg")]
     if not quick:
-        jobs += [("nested6-model-only", "ScopeGen", "ScopeGen.nested6.cfg"),
+        jobs += [("finally6", "ScopeGenEmit", "ScopeGen.finally6.cfg"),
+                 ("nested6-model-only", "ScopeGen", "ScopeGen.nested6.cfg"),
                  ("loopcont7-model-only", "ScopeGen", "ScopeGen.loopcont7.cfg"),
-                 ("finally6", "ScopeGenEmit", "ScopeGen.finally6.cfg"),
                  ("binders5-model-only", "ScopeGen", "ScopeGen.binders5.cfg"),
                  ("inner5-model-only", "ScopeGen", "ScopeGen.inner5.cfg")]
-    results = _tlc_many(jobs) if quick else {name: core.run_tlc(module, cfg, timeout=3400) for name, module, cfg in jobs}
-    for name, _m, cfg in jobs:
-        core.require_ok(results[name], f"ScopeGen {cfg}")
-        check.add_tlc(name, results[name])
+    # quick: everything at once; thorough: the exhaustive run (first job, > 10^8 states) keeps one slot until the end
+    tlc = _TLCJobs(check, jobs, parallel=len(jobs) if quick else 3)
+    if quick:
+        tlc.finish()
     selftest(check)
-    progs = core.emitted_json(results["emit"])
+    progs = core.emitted_json(tlc.get("emit"))
     limit = 1000 if quick else 10**7
     exhaustive = len(progs) <= limit
     if not exhaustive:
@@ -558,48 +576,48 @@ def run(check: core.Check) -> None:
     judge(check, progs, "tlc-exhaustive")
     # targeted slice: try / suppressing with nested in if-branches, one variable, depth 3 (5 statements exhaustively on
     # the model; replayed exhaustively in both tiers; 6 statements model-checked in thorough)
-    judge(check, core.emitted_json(results["nested5"]), "tlc-nested-suppress")
+    judge(check, core.emitted_json(tlc.get("nested5")), "tlc-nested-suppress")
     # closures: nested functions reading a variable of the enclosing function or assigning it through `nonlocal`, and
     # calls of them (4 statements, if-nesting; replayed exhaustively in both tiers)
-    judge(check, core.emitted_json(results["closure4"]), "tlc-closures")
+    judge(check, core.emitted_json(tlc.get("closure4")), "tlc-closures")
     # loop exits: one loop whose body contains a try statement / suppressing with and a break inside it (7 statements on
     # the model; the 47k bodies with a break under a try / suppressing with are replayed -- a seeded sample in the quick tier)
-    lprogs = core.emitted_json(results["loopexit7"])
+    lprogs = core.emitted_json(tlc.get("loopexit7"))
     if quick:
         lprogs = rnd.sample(lprogs, 5000)
     judge(check, lprogs, "tlc-loop-exit")
     # loop-carried definitions: one loop with if / try branches that leave by continue / break / return (6 statements; the
     # bodies with a continue and a use are replayed -- a seeded sample in the quick tier; 7 statements on the model in thorough)
-    cprogs = core.emitted_json(results["loopcont6"])
+    cprogs = core.emitted_json(tlc.get("loopcont6"))
     if quick:
         cprogs = rnd.sample(cprogs, 2500)
     judge(check, cprogs, "tlc-loop-continue")
     # finally clauses: for + try/except/else/finally, the finally clause reads a variable that the body / a handler / the
     # else clause binds (blocks that bind and then return / break / continue, re-binding after a call), and break / continue
     # leaving through a finally clause (5 statements, replayed exhaustively; 6 statements in thorough, sampled)
-    fprogs = core.emitted_json(results["finally5"])
+    fprogs = core.emitted_json(tlc.get("finally5"))
     if not quick:
-        f6 = core.emitted_json(results["finally6"])
-        fprogs += rnd.sample(f6, min(len(f6), 30000))
+        f6 = core.emitted_json(tlc.get("finally6"))
+        fprogs += rnd.sample(f6, min(len(f6), 10000))
     judge(check, fprogs, "tlc-finally")
     # other binding forms, observed on the state anchor itself (usage_to_definition_nodes of the function scope) because
     # their values are not literals; replayed exhaustively in thorough, a seeded sample in quick
-    bprogs = core.emitted_json(results["binders4"])
+    bprogs = core.emitted_json(tlc.get("binders4"))
     if quick:
         bprogs = rnd.sample(bprogs, 3000)
     judge(check, bprogs, "tlc-binders", mode="nodes", need_use=False)
-    iprogs = core.emitted_json(results["inner4"])
+    iprogs = core.emitted_json(tlc.get("inner4"))
     if quick:
         iprogs = rnd.sample(iprogs, 900)
     judge(check, _with_forms(iprogs), "tlc-inner-scopes", mode="nodes", need_use=False)
     # match statements: captures (`case x`, `case [x]`), guards, the wildcard; nested in if / match (5 statements)
-    mprogs = [p for p in core.emitted_json(results["match5"]) if _has_kind(p["prog"], "match")]
-    if quick:
-        mprogs = rnd.sample(mprogs, 1500)
+    mprogs = [p for p in core.emitted_json(tlc.get("match5")) if _has_kind(p["prog"], "match")]
+    mprogs = rnd.sample(mprogs, 1500 if quick else 20000)
     judge(check, mprogs, "tlc-match", mode="nodes")
     sim = core.simulate_cases("ScopeGenEmit", "ScopeGen.sim.cfg", 120 if quick else 12000, depth=30, seed=check.seed + 9,
                               check=check)
     judge(check, sim, "tlc-simulate")
+    tlc.finish()
     check.assumptions.append(
         "C09 domain: no dead code after return/raise/break/continue in a block (and, in the slices loopcont / binders / inner / "
         "match, after a compound statement that cannot complete normally: ScopeGen!DeadTail); `del` is not generated (pyanalyze treats `del x` as a "
